@@ -27,16 +27,33 @@ Proof. exact minimize_exact_core. Qed.
 (* number of tests, including the initial check: n atoms, m = number of distinct core atoms *)
 Definition c10_bound (n m : Z) : Z := (2 * m + 1) * clog2 n + 5 * m + 8.
 
+(* proved for n <= 2^31 atoms.  Beyond that the statement is FALSE of the code: the default
+   --max is 2^30, so the first sweep of a file with more than 2^31 atoms makes n / 2^30
+   proposals (C10_test_count_unbounded_n_refuted; n = 50 * 2^30 atoms, empty core: 51 tests
+   against a bound of 44).  Such an input cannot be replayed on the implementation (tens of
+   gigabytes), so this is recorded in DESIGN.md and not as a known finding. *)
 Theorem C10_test_count :
   forall cfg clk f tc0 core fuel,
+    wf tc0 -> Forall (fun p => p <> []) (tc_parts tc0) -> NoDup (tc_parts tc0) ->
+    Forall (fun r => r = true) (tc_red tc0) ->
+    NoDup core -> (forall c, In c core -> In c (tc_parts tc0)) -> core_test f tc0 core ->
+    cfg = default_cfg -> tc_len tc0 <> 0 -> tc_len tc0 <= 2 ^ 31 ->
+    (Z.to_nat (2 * c09_bound (tc_len tc0)) <= fuel)%nat ->
+    n_tests (chron (result_world (run (minimize cfg clk no_post) (det f) fuel tc0 (content tc0))))
+      <= c10_bound (tc_len tc0) (zlen core).
+Proof. exact minimize_monotone_test_count_corrected. Qed.
+
+Theorem C10_test_count_unbounded_n_refuted :
+  ~ (forall cfg clk f tc0 core fuel,
     wf tc0 -> Forall (fun p => p <> []) (tc_parts tc0) -> NoDup (tc_parts tc0) ->
     Forall (fun r => r = true) (tc_red tc0) ->
     NoDup core -> (forall c, In c core -> In c (tc_parts tc0)) -> core_test f tc0 core ->
     cfg = default_cfg -> tc_len tc0 <> 0 ->
     (Z.to_nat (2 * c09_bound (tc_len tc0)) <= fuel)%nat ->
     n_tests (chron (result_world (run (minimize cfg clk no_post) (det f) fuel tc0 (content tc0))))
-      <= c10_bound (tc_len tc0) (zlen core).
-Proof. exact minimize_monotone_test_count. Qed.
+      <= c10_bound (tc_len tc0) (zlen core)).
+Proof. exact minimize_monotone_test_count_false. Qed.
 
 Print Assumptions C10_exact_core.
 Print Assumptions C10_test_count.
+Print Assumptions C10_test_count_unbounded_n_refuted.
